@@ -657,3 +657,625 @@ def check_into_inner(rep, g):
     outs = g.paths(fn)
     ok = len(outs) == 1 and outs[0].kind == 'return' and outs[0].ret == ('field', ('param', 1), 0) and not outs[0].conds
     rep.ob('R-VIEW', ok, g, 'into_inner returns exactly the stored field', {'ret': [show(o.ret) for o in outs]})
+
+
+# ----------------------------------------------------------------------------- outcome tables
+
+SELF0 = ('field', ('deref', ('param', 1)), 0)
+OTHER0 = ('field', ('deref', ('param', 2)), 0)
+
+
+def table(outs):
+    """canonical, order-insensitive form of a list of outcomes"""
+    rows = set()
+    for o in outs:
+        rows.add((o.kind, tuple(o.conds), o.ret if o.kind == 'return' else None))
+    return rows
+
+
+def show_table(rows, limit=6):
+    out = []
+    for (k, conds, ret) in list(rows)[:limit]:
+        out.append({'kind': k, 'conds': [(show(c)[:140], str(v)) for c, v in conds], 'ret': show(ret)[:200] if ret else None})
+    return out
+
+
+def map_table(rows, f):
+    """apply f(kind, conds, ret) -> (kind, conds, ret) to every row"""
+    return {f(k, c, r) for (k, c, r) in rows}
+
+
+def ctor_table(g, arg):
+    """outcome table of the canonical constructor applied to term `arg`"""
+    fn = g.ctor()
+    if fn is None:
+        return None
+    outs = g.ex.paths(fn['lid'], {1: arg})
+    return table(outs)
+
+
+def conv_expected(g, arg, wrap_ok_when_infallible=False):
+    """expected table of a conversion: the constructor's table; for `new` optionally wrapped in Ok"""
+    t = ctor_table(g, arg)
+    if t is None:
+        return None
+    if not g.has_validation() and wrap_ok_when_infallible:
+        t = map_table(t, lambda k, c, r: (k, c, sym.mk_ok(r) if k == 'return' else r))
+    return t
+
+
+def cmp_tables(rep, rule, g, what, got, want):
+    ok = got == want
+    detail = {}
+    if not ok:
+        detail = {'only_in_generated': show_table(got - want), 'only_in_expected': show_table(want - got)}
+    rep.ob(rule, ok, g, what, detail)
+    return ok
+
+
+def single_return(outs):
+    if len(outs) == 1 and outs[0].kind == 'return' and not outs[0].conds:
+        return outs[0].ret
+    return None
+
+
+# ----------------------------------------------------------------------------- C03 conversions
+
+def default_term(g):
+    d = g.d
+    df = d['default']
+    if df is None or df.get('value') is None:
+        return None
+    v = df['value']
+    fam = d['family']
+    if fam == 'int':
+        return sym.mk_const(d['inner'], v)
+    if fam == 'float':
+        return sym.mk_const(d['inner'], float(v))
+    if fam == 'string':
+        return ('str', v)
+    return None
+
+
+def check_conversions(rep, g):
+    """R-DELEG: TryFrom / From / FromStr(String) / Default agree with the canonical constructor"""
+    d = g.d
+    ex = g.ex
+    hv = g.has_validation()
+    P1 = ('param', 1)
+    derives = set(d['derives'])
+    # --- TryFrom
+    tf = g.trait_impls('convert::TryFrom')
+    want_n = (2 if d['family'] == 'string' else 1) if 'TryFrom' in derives else 0
+    rep.ob('R-IMPL', len(tf) == want_n, g, f'TryFrom impls present: {len(tf)} (expected {want_n})', {})
+    for imp in tf:
+        fn = g.impl_fn(imp, 'try_from')
+        if fn is None:
+            rep.ob('R-DELEG', False, g, 'TryFrom impl without try_from', {})
+            continue
+        rep.bodies.add(fn['lid'])
+        src = g.F.tys(imp['trait_args'][1]) if len(imp['trait_args']) > 1 else '?'
+        got = table(g.paths(fn))
+        want = conv_expected(g, P1, wrap_ok_when_infallible=True)
+        cmp_tables(rep, 'R-DELEG', g, f'TryFrom<{src}>::try_from(x) has exactly the outcomes of the constructor on x', got, want)
+        if hv:
+            et = g.impl_type(imp, 'Error')
+            ctor = g.ctor()
+            okerr = et is not None and ctor is not None and g.F.ty(ctor['output'])['args'][1] == et
+            rep.ob('R-DELEG', okerr, g, f'TryFrom<{src}>::Error is the constructor error type', {})
+    # --- From<Inner> for T
+    fr = [i for i in g.trait_impls('convert::From')]
+    want_n = (2 if d['family'] == 'string' else 1) if 'From' in derives else 0
+    rep.ob('R-IMPL', len(fr) == want_n, g, f'From<raw> impls for T present: {len(fr)} (expected {want_n})', {})
+    for imp in fr:
+        fn = g.impl_fn(imp, 'from')
+        if fn is None:
+            continue
+        rep.bodies.add(fn['lid'])
+        src = g.F.tys(imp['trait_args'][1]) if len(imp['trait_args']) > 1 else '?'
+        got = table(g.paths(fn))
+        want = conv_expected(g, P1)
+        rep.ob('R-DELEG', not hv, g, 'From<raw> exists only without validation', {})
+        cmp_tables(rep, 'R-DELEG', g, f'From<{src}>::from(x) has exactly the outcomes of new(x)', got, want)
+    # --- FromStr of string newtypes
+    if d['family'] == 'string':
+        fs = g.trait_impls('str::FromStr') + g.trait_impls('str::traits::FromStr')
+        rep.ob('R-IMPL', len(fs) == (1 if 'FromStr' in derives else 0), g, 'FromStr impl present iff derived', {})
+        for imp in fs:
+            fn = g.impl_fn(imp, 'from_str')
+            if fn is None:
+                continue
+            rep.bodies.add(fn['lid'])
+            got = table(g.paths(fn))
+            want = conv_expected(g, P1, wrap_ok_when_infallible=True)
+            cmp_tables(rep, 'R-DELEG', g, 'FromStr::from_str(s) has exactly the outcomes of the constructor on s', got, want)
+    # --- Default
+    df = g.trait_impls('default::Default')
+    rep.ob('R-IMPL', len(df) == (1 if 'Default' in derives else 0), g, 'Default impl present iff derived', {})
+    for imp in df:
+        fn = g.impl_fn(imp, 'default')
+        if fn is None:
+            continue
+        rep.bodies.add(fn['lid'])
+        outs = g.paths(fn)
+        got = table(outs)
+        # structural clause (all defaults): every returned value is the payload of a constructor Ok;
+        # there is no fallback value: all other paths diverge
+        notret = [o for o in outs if o.kind not in ('return', 'diverge')]
+        rep.ob('R-DELEG', not notret, g, 'Default::default: every path returns or panics', {'why': [o.why for o in notret][:3]})
+        dt = default_term(g)
+        if dt is None:
+            # default expression without a Sigma value: compare with the constructor applied to the
+            # argument term actually passed (shape only): returned values must be T(..) from ctor paths
+            rets = [o for o in outs if o.kind == 'return']
+            ok = all(is_adt(o.ret) and o.ret[1] == g.adt['path'] for o in rets) and bool(rets)
+            rep.ob('R-DELEG', ok, g, 'Default::default returns a constructed T on every returning path', {'rets': [show(o.ret)[:120] for o in rets][:3]})
+            continue
+        ct = ctor_table(g, dt)
+        if hv:
+            def unwrap(k, c, r):
+                if k == 'return' and is_ok(r):
+                    return ('return', c, r[4][0])
+                if k == 'return' and is_err(r):
+                    return ('diverge', c, None)
+                return (k, c, r)
+            want = map_table(ct, unwrap)
+        else:
+            want = ct
+        cmp_tables(rep, 'R-DELEG', g, f'Default::default() == constructor({d["default"]["text"]}), panicking where it rejects', got, want)
+        if len(rep.samples) < 12:
+            rep.sample({'decl': decl_key(d), 'fn': 'default', 'table': show_table(got)})
+
+
+# ----------------------------------------------------------------------------- C06 FromStr (non-string)
+
+def payload(x, idx, name):
+    return ('field', ('downcast', x, idx, name), 0)
+
+
+def check_from_str(rep, g):
+    """R-FROMSTR: from_str = inner parse, then the constructor; Parse / Validate classification"""
+    d = g.d
+    ex = g.ex
+    if d['family'] == 'string':
+        return
+    hv = g.has_validation()
+    fs = g.trait_impls('str::FromStr') + g.trait_impls('str::traits::FromStr')
+    rep.ob('R-IMPL', len(fs) == (1 if 'FromStr' in d['derives'] else 0), g, 'FromStr impl present iff derived', {})
+    for imp in fs:
+        fn = g.impl_fn(imp, 'from_str')
+        if fn is None:
+            continue
+        rep.bodies.add(fn['lid'])
+        outs = g.paths(fn)
+        got = table(outs)
+        # locate the inner parse: the first condition of every path discriminates one call on the parameter
+        firsts = {o.conds[0][0] for o in outs if o.conds}
+        r = None
+        if len(firsts) == 1:
+            c0 = next(iter(firsts))
+            if c0[0] == 'discr' and c0[1][0] == 'call':
+                r = c0[1]
+        ok_parse = False
+        if r is not None and len(r[2]) == 1 and strip_view(ex, r[2][0]) == ('param', 1):
+            c = ex.callees.get(r[1])
+            if c is not None:
+                inner_ty = g.F.tys(g.adt['variants'][0]['fields'][0]['ty'])
+                if c.path.endswith('str::<impl str>::parse') and c.gargs and g.F.tys(c.gargs[0]) == inner_ty:
+                    ok_parse = True
+                elif c.trait and tail(c.trait, 1) == 'FromStr' and c.name == 'from_str' and c.gargs and g.F.tys(c.gargs[0]) == inner_ty:
+                    ok_parse = True
+        rep.ob('R-FROMSTR', ok_parse, g, 'from_str first parses the unmodified parameter with the inner type\'s FromStr',
+               {'first_conds': [show(x)[:200] for x in firsts]})
+        if not ok_parse:
+            continue
+        pe = g.parse_err_adt
+        rep.ob('R-FROMSTR', pe is not None, g, 'dedicated <T>ParseError enum exists', {})
+        if pe is None:
+            continue
+        vnames = [v['name'] for v in pe['variants']]
+        rep.ob('R-FROMSTR', vnames == (['Parse', 'Validate'] if hv else ['Parse']), g,
+               'parse error enum has exactly Parse (and Validate iff validation)', {'variants': vnames})
+        dr = ('discr', r)
+        want = set()
+        want.add(('return', ((dr, 1),), sym.mk_err(('adt', pe['path'], 0, 'Parse', (payload(r, 1, 'Err'),)))))
+        ct = ctor_table(g, payload(r, 0, 'Ok'))
+
+        def lift(k, c, rr):
+            c2 = ((dr, 0),) + tuple(c)
+            if not hv:
+                return (k, c2, sym.mk_ok(rr) if k == 'return' else rr)
+            if k == 'return' and is_err(rr):
+                return (k, c2, sym.mk_err(('adt', pe['path'], 1, 'Validate', (rr[4][0],))))
+            return (k, c2, rr)
+        want |= map_table(ct, lift)
+        cmp_tables(rep, 'R-FROMSTR', g, 'from_str: Err(Parse(e)) iff the inner parse fails, else the constructor result with Err wrapped in Validate',
+                   got, want)
+        rep.sample({'decl': decl_key(d), 'fn': 'from_str', 'table': show_table(got)})
+
+
+# ----------------------------------------------------------------------------- C04 / C10 serde
+
+def check_deserialize(rep, g):
+    d = g.d
+    ex = g.ex
+    hv = g.has_validation()
+    imps = g.trait_impls('Deserialize') + g.trait_impls('de::Deserialize')
+    imps = [i for i in imps if i['trait'].startswith('serde')]
+    rep.ob('R-IMPL', len(imps) == (1 if 'Deserialize' in d['derives'] else 0), g, 'Deserialize impl present iff derived', {})
+    for imp in imps:
+        fn = g.impl_fn(imp, 'deserialize')
+        extra = [it['name'] for it in imp['items'] if it['kind'] == 'fn' and it['name'] != 'deserialize']
+        rep.ob('R-DESER', not extra, g, 'Deserialize impl overrides only `deserialize`', {'extra': extra})
+        if fn is None:
+            rep.ob('R-DESER', False, g, 'no deserialize fn', {})
+            continue
+        rep.bodies.add(fn['lid'])
+        ret = single_return(g.paths(fn))
+        ok = False
+        visitor_adt = None
+        if ret is not None and ret[0] == 'call':
+            c = ex.callees.get(ret[1])
+            if c is not None and c.trait and c.trait.endswith('Deserializer') and c.name == 'deserialize_newtype_struct' and len(ret[2]) == 3:
+                a0, a1, a2 = ret[2]
+                if a0 == ('param', 1) and strip_view(ex, a1) == ('str', d['name']) and a2[0] == 'adt':
+                    ok = True
+                    visitor_adt = a2[1]
+        rep.ob('R-DESER', ok, g, 'deserialize(d) = d.deserialize_newtype_struct("<T>", visitor), returned unchanged',
+               {'ret': show(ret)[:300] if ret else None})
+        if not ok:
+            continue
+        vadt = g.F.adt_by_path.get(visitor_adt)
+        vimps = [i for i in g.impls if i.get('trait', '').endswith('de::Visitor') and vadt is not None
+                 and g.F.ty(i['self']).get('lid') == vadt['lid']]
+        rep.ob('R-DESER', len(vimps) == 1, g, 'exactly one Visitor impl for the visitor type', {'n': len(vimps)})
+        if len(vimps) != 1:
+            continue
+        vi = vimps[0]
+        vfns = sorted(it['name'] for it in vi['items'] if it['kind'] == 'fn')
+        rep.ob('R-DESER', vfns == ['expecting', 'visit_newtype_struct'], g,
+               'visitor implements only expecting + visit_newtype_struct (any other visit_* falls back to serde\'s invalid-type error)',
+               {'fns': vfns})
+        vt = g.impl_type(vi, 'Value')
+        rep.ob('R-DESER', vt is not None and g.F.ty(vt).get('lid') == g.adt['lid'], g, 'Visitor::Value is the newtype', {})
+        vf = g.impl_fn(vi, 'visit_newtype_struct')
+        if vf is None:
+            continue
+        rep.bodies.add(vf['lid'])
+        outs = g.paths(vf)
+        got = table(outs)
+        firsts = {o.conds[0][0] for o in outs if o.conds}
+        r = None
+        if len(firsts) == 1:
+            c0 = next(iter(firsts))
+            if c0[0] == 'discr' and c0[1][0] == 'call':
+                r = c0[1]
+        okr = False
+        if r is not None and len(r[2]) == 1 and r[2][0] == ('param', 2):
+            c = ex.callees.get(r[1])
+            inner_ty = g.F.tys(g.adt['variants'][0]['fields'][0]['ty'])
+            if c is not None and c.trait and c.trait.endswith('Deserialize') and c.name == 'deserialize' and c.gargs and g.F.tys(c.gargs[0]) == inner_ty:
+                okr = True
+        rep.ob('R-DESER', okr, g, 'visitor first deserializes the inner type from the given deserializer',
+               {'first': [show(x)[:200] for x in firsts]})
+        if not okr:
+            continue
+        dr = ('discr', r)
+        ct = ctor_table(g, payload(r, 0, 'Ok'))
+        # expected rows; the Err rows of the constructor are checked separately (custom(..) wrapper)
+        want_exact = {('return', ((dr, 1),), sym.mk_err(payload(r, 1, 'Err')))}
+        want_err_rows = []
+        for (k, c, rr) in ct:
+            c2 = ((dr, 0),) + tuple(c)
+            if not hv:
+                want_exact.add((k, c2, sym.mk_ok(rr) if k == 'return' else rr))
+            elif k == 'return' and is_err(rr):
+                want_err_rows.append((c2, rr[4][0]))
+            else:
+                want_exact.add((k, c2, rr))
+        missing = want_exact - got
+        rest = got - want_exact
+        rep.ob('R-DESER', not missing, g, 'inner failure is returned unchanged; accepted values are exactly the constructor\'s Ok results',
+               {'missing': show_table(missing)})
+        # remaining rows: one per constructor rejection, Err(custom(.. the validation error ..))
+        okrows = len(rest) == len(want_err_rows)
+        for (c2, e) in want_err_rows:
+            m = [row for row in rest if row[0] == 'return' and row[1] == c2]
+            if len(m) != 1:
+                okrows = False
+                continue
+            rr = m[0][2]
+            good = is_err(rr) and rr[4][0][0] == 'call' and cname(ex, rr[4][0]) == 'custom' and contains(rr[4][0], e)
+            if not good:
+                okrows = False
+        rep.ob('R-DESER', okrows, g, 'constructor rejections become Err(de::Error::custom(<the validation error>)), nothing else is returned',
+               {'rest': show_table(rest), 'expected_rejections': len(want_err_rows)})
+        rep.sample({'decl': decl_key(d), 'fn': 'visit_newtype_struct', 'rows': len(got)})
+
+
+def check_serialize(rep, g):
+    d = g.d
+    ex = g.ex
+    imps = [i for i in g.trait_impls('Serialize') + g.trait_impls('ser::Serialize') if i['trait'].startswith('serde')]
+    rep.ob('R-IMPL', len(imps) == (1 if 'Serialize' in d['derives'] else 0), g, 'Serialize impl present iff derived', {})
+    for imp in imps:
+        fn = g.impl_fn(imp, 'serialize')
+        extra = [it['name'] for it in imp['items'] if it['kind'] == 'fn' and it['name'] != 'serialize']
+        rep.ob('R-SER', not extra and fn is not None, g, 'Serialize impl defines only `serialize`', {'extra': extra})
+        if fn is None:
+            continue
+        rep.bodies.add(fn['lid'])
+        ret = single_return(g.paths(fn))
+        ok = False
+        if ret is not None and ret[0] == 'call' and len(ret[2]) == 3:
+            c = ex.callees.get(ret[1])
+            a0, a1, a2 = ret[2]
+            if c is not None and c.trait and c.trait.endswith('Serializer') and c.name == 'serialize_newtype_struct':
+                ok = a0 == ('param', 2) and strip_view(ex, a1) == ('str', d['name']) and a2 == ('ref', False, SELF0)
+        rep.ob('R-SER', ok, g, 'serialize(s) = s.serialize_newtype_struct("<T>", &self.0), returned unchanged', {'ret': show(ret)[:300] if ret else None})
+        if ok:
+            rep.sample({'decl': decl_key(d), 'fn': 'serialize', 'ret': show(ret)})
+
+
+# ----------------------------------------------------------------------------- C07 error enum
+
+def check_error_enum(rep, g):
+    """R-VARIANT: the generated error enum has exactly one unit variant per declared validator, in order"""
+    d = g.d
+    if d['custom'] or not d['validators']:
+        rep.ob('R-VARIANT', g.err_adt is None, g, 'no error enum is generated without built-in validators', {})
+        return
+    ea = g.err_adt
+    rep.ob('R-VARIANT', ea is not None and ea['kind'] == 'Enum', g, 'generated error enum exists', {})
+    if ea is None:
+        return
+    want = [VARIANT[v['kind']] for v in d['validators']]
+    got = [v['name'] for v in ea['variants']]
+    rep.ob('R-VARIANT', got == want, g, 'error enum variants = one per declared validator, declaration order', {'got': got, 'want': want})
+    rep.ob('R-VARIANT', all(not v['fields'] for v in ea['variants']), g, 'all variants are unit variants', {})
+    ctor = g.ctor()
+    if ctor is not None:
+        et = g.F.ty(ctor['output'])['args'][1]
+        rep.ob('R-VARIANT', g.F.ty(et).get('lid') == ea['lid'], g, 'try_new returns Result<T, that enum>', {})
+
+
+def check_custom_error_passthrough(rep, g):
+    d = g.d
+    if not d['custom']:
+        return
+    ctor = g.ctor()
+    if ctor is None:
+        return
+    et = g.F.tys(g.F.ty(ctor['output'])['args'][1])
+    rep.ob('R-VARIANT', et.split('::')[-1] == d['custom']['error'].split('::')[-1], g,
+           'custom validation: try_new returns the user error type', {'error_type': et})
+
+
+# ----------------------------------------------------------------------------- C13 views & derives
+
+def shared_ref_of_self0(ex, t, allow_deref_call=True):
+    """t is a shared view of self.0 (possibly through String->str deref / unsizing)"""
+    if t[0] != 'ref' or t[1]:
+        return False
+    return strip_view(ex, t) == SELF0
+
+
+def check_views(rep, g):
+    d = g.d
+    ex = g.ex
+    derives = set(d['derives'])
+    inner_field_ty = g.adt['variants'][0]['fields'][0]['ty']
+
+    def one(trait_tail, method, what, nwant=None):
+        imps = g.trait_impls(trait_tail)
+        return imps
+
+    # AsRef / Borrow / Deref
+    for trait_tail, method, dname, n_expected in (
+            ('convert::AsRef', 'as_ref', 'AsRef', 1),
+            ('borrow::Borrow', 'borrow', 'Borrow', 2 if d['family'] == 'string' else 1),
+            ('ops::Deref', 'deref', 'Deref', 1), ('ops::deref::Deref', 'deref', 'Deref', 1)):
+        imps = g.trait_impls(trait_tail)
+        if trait_tail == 'ops::deref::Deref' and not imps:
+            continue
+        if trait_tail == 'ops::Deref' and not imps and g.trait_impls('ops::deref::Deref'):
+            continue
+        rep.ob('R-IMPL', len(imps) == (n_expected if dname in derives else 0), g, f'{dname} impls present iff derived', {'n': len(imps)})
+        for imp in imps:
+            fn = g.impl_fn(imp, method)
+            if fn is None:
+                continue
+            rep.bodies.add(fn['lid'])
+            ret = single_return(g.paths(fn))
+            ok = ret is not None and shared_ref_of_self0(ex, ret)
+            rep.ob('R-VIEW', ok, g, f'{dname}::{method} returns a shared view of exactly the stored value', {'ret': show(ret) if ret else None})
+            rep.ob('R-VIEW', len(fn['inputs']) == 1 and not g.F.ty(fn['inputs'][0]).get('mut', False), g, f'{dname}::{method} takes &self', {})
+    # Into: From<T> for Inner
+    intos = [i for i in g.impls if i.get('trait', '').endswith('convert::From')
+             and g.F.ty(i['trait_args'][1]).get('lid') == g.adt['lid'] and g.self_kind(i) is None]
+    rep.ob('R-IMPL', len(intos) == (1 if 'Into' in derives else 0), g, 'From<T> for Inner present iff Into derived', {'n': len(intos)})
+    for imp in intos:
+        fn = g.impl_fn(imp, 'from')
+        if fn is None:
+            continue
+        rep.bodies.add(fn['lid'])
+        ret = single_return(g.paths(fn))
+        rep.ob('R-VIEW', ret == ('field', ('param', 1), 0), g, 'Into: returns exactly the stored value', {'ret': show(ret) if ret else None})
+        rep.ob('R-VIEW', imp['self'] == inner_field_ty, g, 'Into: target is the inner type', {})
+    # Display
+    disp = [i for i in g.trait_impls('fmt::Display')]
+    rep.ob('R-IMPL', len(disp) == (1 if 'Display' in derives else 0), g, 'Display impl present iff derived', {})
+    for imp in disp:
+        fn = g.impl_fn(imp, 'fmt')
+        if fn is None:
+            continue
+        rep.bodies.add(fn['lid'])
+        ret = single_return(g.paths(fn))
+        ok = False
+        if ret is not None and ret[0] == 'call' and len(ret[2]) == 2:
+            c = ex.callees.get(ret[1])
+            if c is not None and c.trait and c.trait.endswith('fmt::Display') and c.name == 'fmt':
+                ok = strip_view(ex, ret[2][0]) == SELF0 and ret[2][1] in (('param', 2), ('ref', True, ('deref', ('param', 2))))
+        rep.ob('R-VIEW', ok, g, 'Display::fmt = <Inner as Display>::fmt(&self.0, f), returned unchanged', {'ret': show(ret) if ret else None})
+    # IntoIterator
+    iti = g.trait_impls('iter::IntoIterator') + g.trait_impls('iter::traits::collect::IntoIterator')
+    itr = g.trait_impls('iter::IntoIterator', '&T') + g.trait_impls('iter::traits::collect::IntoIterator', '&T')
+    itm = g.trait_impls('iter::IntoIterator', '&mut T') + g.trait_impls('iter::traits::collect::IntoIterator', '&mut T')
+    want = 1 if 'IntoIterator' in derives else 0
+    rep.ob('R-IMPL', len(iti) == want and len(itr) == want, g, 'IntoIterator for T and &T present iff derived', {'T': len(iti), '&T': len(itr)})
+    rep.ob('R-MUT', not itm, g, 'no IntoIterator for &mut T', {})
+    for imp in iti:
+        fn = g.impl_fn(imp, 'into_iter')
+        if fn is None:
+            continue
+        rep.bodies.add(fn['lid'])
+        ret = single_return(g.paths(fn))
+        ok = ret is not None and ret[0] == 'call' and cname(ex, ret) == 'into_iter' and ret[2] == (('field', ('param', 1), 0),)
+        rep.ob('R-VIEW', ok, g, 'IntoIterator for T iterates exactly the stored value', {'ret': show(ret) if ret else None})
+    for imp in itr:
+        fn = g.impl_fn(imp, 'into_iter')
+        if fn is None:
+            continue
+        rep.bodies.add(fn['lid'])
+        ret = single_return(g.paths(fn))
+        # an iterator derived from &self.0 only: every leaf of the term is the shared field view
+        ok = ret is not None and ret[0] == 'call' and params_of(ret) == {1} and contains(ret, SELF0) and not any(
+            t[0] == 'ref' and t[1] for t in walk(ret))
+        # peel the call chain: each step a call whose single argument is the previous
+        t = ret
+        chain = []
+        while ok and t[0] == 'call' and len(t[2]) == 1:
+            chain.append(cname(ex, t))
+            t = t[2][0]
+        ok = ok and strip_view(ex, t) == SELF0 and all(n in ('into_iter', 'iter') for n in chain)
+        rep.ob('R-VIEW', ok, g, 'IntoIterator for &T iterates a shared view of the stored value', {'ret': show(ret) if ret else None})
+        it = g.impl_type(imp, 'Item')
+        rep.ob('R-VIEW', it is not None and 'IntoIterator' in g.F.tys(it) or (it is not None and g.F.tys(it).startswith('&')), g,
+               'IntoIterator for &T: Item is the inner by-reference item', {'item': g.F.tys(it) if it is not None else None})
+
+
+def check_derived_cmp(rep, g):
+    """R-DERIVE: PartialEq/Eq/PartialOrd/Ord/Hash/Clone on T are the single-field delegations"""
+    d = g.d
+    ex = g.ex
+    derives = set(d['derives'])
+    fam = d['family']
+
+    def impl_of(tt):
+        for cand in tt:
+            r = g.trait_impls(cand)
+            if r:
+                return r
+        return []
+    # PartialEq
+    pe = impl_of(['cmp::PartialEq'])
+    rep.ob('R-IMPL', len(pe) == (1 if 'PartialEq' in derives else 0), g, 'PartialEq impl present iff derived', {})
+    for imp in pe:
+        fn = g.impl_fn(imp, 'eq')
+        extra = [it['name'] for it in imp['items'] if it['kind'] == 'fn' and it['name'] != 'eq']
+        rep.ob('R-DERIVE', not extra and fn is not None, g, 'PartialEq defines only eq', {'extra': extra})
+        if fn is None:
+            continue
+        rep.bodies.add(fn['lid'])
+        ret = single_return(g.paths(fn))
+        ok = False
+        if ret is not None:
+            if ret[0] == 'bin' and ret[1] == 'Eq' and ret[2] == SELF0 and ret[3] == OTHER0:
+                ok = True
+            elif ret[0] == 'call' and cname(ex, ret) == 'eq' and (ctrait(ex, ret) or '').endswith('cmp::PartialEq') and len(ret[2]) == 2:
+                ok = strip_view(ex, ret[2][0]) == SELF0 and strip_view(ex, ret[2][1]) == OTHER0
+        rep.ob('R-DERIVE', ok, g, 'eq(a, b) = (a.0 == b.0)', {'ret': show(ret) if ret else None})
+    # Eq marker
+    eqi = impl_of(['cmp::Eq'])
+    rep.ob('R-IMPL', len(eqi) == (1 if 'Eq' in derives else 0), g, 'Eq impl present iff derived', {})
+    # PartialOrd / Ord
+    for tt, m, dn in ((['cmp::PartialOrd'], 'partial_cmp', 'PartialOrd'), (['cmp::Ord'], 'cmp', 'Ord')):
+        imps = impl_of(tt)
+        rep.ob('R-IMPL', len(imps) == (1 if dn in derives else 0), g, f'{dn} impl present iff derived', {})
+        for imp in imps:
+            fn = g.impl_fn(imp, m)
+            extra = [it['name'] for it in imp['items'] if it['kind'] == 'fn' and it['name'] != m]
+            rep.ob('R-DERIVE', not extra and fn is not None, g, f'{dn} defines only {m} (lt/le/gt/ge/max/min/clamp are the provided defaults)', {'extra': extra})
+            if fn is None:
+                continue
+            rep.bodies.add(fn['lid'])
+            outs = g.paths(fn)
+            if dn == 'Ord' and fam == 'float':
+                # cmp = partial_cmp(self, other).unwrap_or_else(panic): returns the Some payload, diverges on None
+                rets = [o for o in outs if o.kind == 'return']
+                divs = [o for o in outs if o.kind == 'diverge']
+                ok = len(rets) == 1 and len(divs) == 1 and len(outs) == 2
+                call = None
+                if ok:
+                    r = rets[0].ret
+                    if r[0] == 'field' and r[1][0] == 'downcast' and r[1][3] == 'Some':
+                        call = r[1][1]
+                    ok = call is not None and call[0] == 'call' and cname(ex, call) == 'partial_cmp' and \
+                        (ctrait(ex, call) or '').endswith('cmp::PartialOrd') and len(call[2]) == 2 and \
+                        strip_view(ex, call[2][0]) == SELF0 and strip_view(ex, call[2][1]) == OTHER0
+                    ok = ok and rets[0].conds == [(('discr', call), 1)] and divs[0].conds == [(('discr', call), 0)]
+                rep.ob('R-DERIVE', ok, g, 'float Ord::cmp = partial_cmp(&a.0, &b.0) unwrapped; its only panic edge is the None (NaN) arm',
+                       {'outs': [repr(o)[:300] for o in outs][:3]})
+                continue
+            ret = single_return(outs)
+            ok = False
+            if ret is not None and ret[0] == 'call' and cname(ex, ret) == m and (ctrait(ex, ret) or '').endswith(tt[0]) and len(ret[2]) == 2:
+                ok = strip_view(ex, ret[2][0]) == SELF0 and strip_view(ex, ret[2][1]) == OTHER0
+            rep.ob('R-DERIVE', ok, g, f'{m}(a, b) = {m}(&a.0, &b.0), returned unchanged', {'ret': show(ret) if ret else None})
+    # Hash
+    hs = impl_of(['hash::Hash'])
+    rep.ob('R-IMPL', len(hs) == (1 if 'Hash' in derives else 0), g, 'Hash impl present iff derived', {})
+    for imp in hs:
+        fn = g.impl_fn(imp, 'hash')
+        extra = [it['name'] for it in imp['items'] if it['kind'] == 'fn' and it['name'] != 'hash']
+        rep.ob('R-DERIVE', not extra and fn is not None, g, 'Hash defines only hash', {'extra': extra})
+        if fn is None:
+            continue
+        rep.bodies.add(fn['lid'])
+        ret = single_return(g.paths(fn))
+        ok = False
+        if ret is not None and ret[0] == 'call' and cname(ex, ret) == 'hash' and (ctrait(ex, ret) or '').endswith('hash::Hash') and len(ret[2]) == 2:
+            ok = strip_view(ex, ret[2][0]) == SELF0 and ret[2][1] in (('param', 2), ('ref', True, ('deref', ('param', 2))))
+        rep.ob('R-DERIVE', ok, g, 'hash(a, state) = Hash::hash(&a.0, state) and nothing else', {'ret': show(ret) if ret else None})
+    # Clone
+    cl = impl_of(['clone::Clone'])
+    rep.ob('R-IMPL', len(cl) == (1 if 'Clone' in derives else 0), g, 'Clone impl present iff derived', {})
+    for imp in cl:
+        fn = g.impl_fn(imp, 'clone')
+        if fn is None:
+            continue
+        rep.bodies.add(fn['lid'])
+        ret = single_return(g.paths(fn))
+        ok = False
+        if ret is not None:
+            if ret == ('deref', ('param', 1)):
+                ok = 'Copy' in derives
+            elif is_adt(ret) and ret[1] == g.adt['path'] and len(ret[4]) == 1:
+                x = ret[4][0]
+                ok = x[0] == 'call' and cname(ex, x) == 'clone' and (ctrait(ex, x) or '').endswith('clone::Clone') and \
+                    len(x[2]) == 1 and strip_view(ex, x[2][0]) == SELF0
+        rep.ob('R-DERIVE', ok, g, 'clone(a) = T(a.0.clone()) (or *a for Copy types)', {'ret': show(ret) if ret else None})
+    cp = impl_of(['marker::Copy'])
+    rep.ob('R-IMPL', len(cp) == (1 if 'Copy' in derives else 0), g, 'Copy impl present iff derived', {})
+
+
+# ----------------------------------------------------------------------------- C12 float Eq/Ord
+
+def check_float_total_order(rep, g):
+    d = g.d
+    if d['family'] != 'float' or not ({'Eq', 'Ord'} & set(d['derives'])):
+        return
+    has_finite = any(v['kind'] == 'finite' for v in d['validators'])
+    rep.ob('R-FINITE', has_finite, g, 'float Eq/Ord is only generated together with a `finite` validator', {})
+    ctor = g.ctor()
+    if ctor is None or ctor['name'] != 'try_new':
+        rep.ob('R-FINITE', False, g, 'float Eq/Ord type has no try_new', {})
+        return
+    outs = [o for o in g.paths(ctor) if o.kind == 'return' and is_ok(o.ret)]
+    ok = bool(outs)
+    for o in outs:
+        F = o.ret[4][0][4][0]
+        chks = [norm_check(g.ex, c, v, F) for c, v in o.conds]
+        if not any(c['kind'] == 'is_finite' and c['truth'] is True for c in chks):
+            ok = False
+    rep.ob('R-FINITE', ok, g, 'every accepting path of try_new passed is_finite() on the stored value', {})
